@@ -73,8 +73,12 @@ def build_harness(log):
         for name in ("dump", "run", "sites"):
             if not os.path.isdir(os.path.join(GOH, "cmd", name)):
                 continue
-            rc, out = sh(["go", "build", "-tags", "verif", "-o", os.path.join(BIN, name), "./cmd/" + name],
+            # build to a private name and rename: a check running in parallel may be executing the old binary
+            tmpout = os.path.join(BIN, "%s.tmp%d" % (name, os.getpid()))
+            rc, out = sh(["go", "build", "-tags", "verif", "-o", tmpout, "./cmd/" + name],
                          cwd=GOH, env=GOENV, timeout=900)
+            if rc == 0:
+                os.replace(tmpout, os.path.join(BIN, name))
             res[name] = (rc, out)
             if rc != 0:
                 log("go build %s failed:\n%s" % (name, out))
@@ -91,15 +95,21 @@ def build_binary(log, race=False):
         if race:
             cmd.append("-race")
             env["CGO_ENABLED"] = "1"
-        rc, out = sh(cmd + ["-o", out_path, "."], cwd=REPO, env=env, timeout=1200)
+        tmpout = out_path + ".tmp%d" % os.getpid()
+        rc, out = sh(cmd + ["-o", tmpout, "."], cwd=REPO, env=env, timeout=1200)
         if rc != 0:
             log("go build gofasta failed:\n" + out)
             return None
-        return out_path
+        # each check runs its own copy, so that a parallel check rebuilding the binary cannot disturb it
+        private = out_path + ".%d" % os.getpid()
+        os.replace(tmpout, private)
+        import atexit
+        atexit.register(lambda p=private: os.path.exists(p) and os.remove(p))
+        return private
 
 
 def regen_tables(log):
-    rc, out = sh([os.path.join(BIN, "dump")], timeout=60)
+    rc, out = sh([private_copy(os.path.join(BIN, "dump"))], timeout=60)
     if rc != 0:
         log("table dump failed:\n" + out)
         return False
@@ -111,7 +121,7 @@ def regen_tables(log):
 
 
 def regen_sites(log):
-    rc, out = sh([os.path.join(BIN, "sites"), REPO], timeout=120)
+    rc, out = sh([private_copy(os.path.join(BIN, "sites")), REPO], timeout=120)
     if rc != 0:
         log("site scan failed:\n" + out)
         return False
@@ -122,12 +132,34 @@ def regen_sites(log):
     return True
 
 
+_private = {}
+
+
+def private_copy(path):
+    """A per-process hard link (or copy) of a built tool, immune to a parallel check replacing it."""
+    if path in _private and os.path.exists(_private[path]):
+        return _private[path]
+    dst = path + ".%d" % os.getpid()
+    with Lock("go"):
+        try:
+            if os.path.exists(dst):
+                os.remove(dst)
+            os.link(path, dst)
+        except OSError:
+            shutil.copyfile(path, dst)
+            os.chmod(dst, 0o755)
+    import atexit
+    atexit.register(lambda p=dst: os.path.exists(p) and os.remove(p))
+    _private[path] = dst
+    return dst
+
+
 def go_run(cases, log, timeout=600):
     """Run cases (list of dicts with 'id' and 'op') through the Go runner.  Returns {id: obs}.
     A case during which the process died is reported as status 'crash' and the runner restarted."""
     results = {}
     pending = list(cases)
-    runner = os.path.join(BIN, "run")
+    runner = private_copy(os.path.join(BIN, "run"))
     while pending:
         data = "".join(json.dumps(c) + "\n" for c in pending).encode()
         p = subprocess.run([runner], input=data, stdout=subprocess.PIPE, stderr=subprocess.PIPE,
